@@ -48,6 +48,7 @@ func main() {
 	list := flag.Bool("list", false, "")
 	apply := flag.Int("apply", -1, "")
 	out := flag.String("out", "", "")
+	ops2 := flag.Bool("ops2", false, "structural operators instead of the basic ones: undefer, ungo, swap adjacent statements, drop an else branch, drop a return inside an if")
 	flag.Parse()
 	fset := token.NewFileSet()
 	f, err := parser.ParseFile(fset, *file, nil, parser.ParseComments)
@@ -79,6 +80,34 @@ func main() {
 				s := (*list)[i]
 				idx := i
 				del := func() { (*list)[idx] = &ast.EmptyStmt{Semicolon: s.Pos(), Implicit: true} }
+				if *ops2 {
+					switch st := s.(type) {
+					case *ast.DeferStmt:
+						hit("undefer", s, fn, src(fset, s), func() { (*list)[idx] = &ast.ExprStmt{X: st.Call} })
+					case *ast.GoStmt:
+						if _, lit := st.Call.Fun.(*ast.FuncLit); !lit {
+							hit("ungo", s, fn, src(fset, s), func() { (*list)[idx] = &ast.ExprStmt{X: st.Call} })
+						}
+					case *ast.IfStmt:
+						if st.Else != nil {
+							hit("drop-else", s, fn, "if "+src(fset, st.Cond)+" ... else", func() { st.Else = nil })
+						}
+					}
+					if idx+1 < len(*list) {
+						_, d1 := s.(*ast.DeclStmt)
+						a1, isA1 := s.(*ast.AssignStmt)
+						_, r2 := (*list)[idx+1].(*ast.ReturnStmt)
+						if !d1 && !(isA1 && a1.Tok == token.DEFINE) && !r2 {
+							nxt := (*list)[idx+1]
+							if a2, isA2 := nxt.(*ast.AssignStmt); !(isA2 && a2.Tok == token.DEFINE) {
+								if _, d2 := nxt.(*ast.DeclStmt); !d2 {
+									hit("swap-stmts", s, fn, src(fset, s)+"  <->  "+src(fset, nxt), func() { (*list)[idx], (*list)[idx+1] = nxt, s })
+								}
+							}
+						}
+					}
+					continue
+				}
 				switch st := s.(type) {
 				case *ast.ExprStmt:
 					if call, ok := st.X.(*ast.CallExpr); ok {
@@ -107,17 +136,20 @@ func main() {
 			case *ast.CommClause:
 				walkBlock(&x.Body)
 			case *ast.IfStmt:
+				if *ops2 {
+					break
+				}
 				c := x.Cond
 				hit("negate-if", x, fn, "if "+src(fset, c), func() {
 					x.Cond = &ast.UnaryExpr{Op: token.NOT, X: &ast.ParenExpr{X: c}}
 				})
 			case *ast.BinaryExpr:
-				if to, ok := swaps[x.Op]; ok {
+				if to, ok := swaps[x.Op]; ok && !*ops2 {
 					// string concatenation: '-' would not compile; the build filter drops it
 					hit("swap-"+x.Op.String()+"-to-"+to.String(), x, fn, src(fset, x), func() { x.Op = to })
 				}
 			case *ast.BasicLit:
-				if x.Kind == token.INT {
+				if x.Kind == token.INT && !*ops2 {
 					if v, err := strconv.ParseInt(x.Value, 0, 64); err == nil {
 						hit("int+1", x, fn, x.Value, func() { x.Value = strconv.FormatInt(v+1, 10) })
 					}
